@@ -797,6 +797,16 @@ Each: real tridas -> listing -> real trias -> UF2 -> independent reader. non-tri
 	{
 		bins.push(unhex(&h.replace(' ', "")).unwrap());
 	}
+	// whole 256-byte pages of `00 00` (MOVS R0, R0) between, before and behind pages of other code: every input byte is reproduced
+	for (pre, zeros, post) in [(128usize, 128usize, 0usize), (0, 128, 3), (128, 256, 128), (64, 128 + 64, 5), (128, 128, 128), (1, 127 + 128, 0), (0, 384, 0)]
+	{
+		let mut b = Vec::new();
+		for _ in 0..pre {b.extend_from_slice(&[0x00, 0xBF]);}
+		for _ in 0..zeros {b.extend_from_slice(&[0x00, 0x00]);}
+		for _ in 0..post {b.extend_from_slice(&[0x00, 0xBA]);}   // REV R0, R0
+		b.extend_from_slice(&[0x70, 0x47]);
+		bins.push(b);
+	}
 	cli_noargs(cx);
 	query_corners(cx);
 	for off in BL_FAR_OFFSETS {for nops in [0usize, 1, 2, 7] {bl_target_case(cx, nops, off);}}
